@@ -46,7 +46,9 @@ def case(draw):
     mode = draw(st.sampled_from(["root", "root", "subdir-rel", "subdir-abs", "outside-abs", "outside-rel"]))
     absolute = draw(st.booleans())
     outside = draw(st.integers(0, 7)) == 0
-    return {"state": state, "picks": picks, "mode": mode, "absolute": absolute, "outside": outside, "mp": draw(st.integers(0, 5)) == 0}
+    return {"state": state, "picks": picks, "mode": mode, "absolute": absolute, "outside": outside, "mp": draw(st.integers(0, 5)) == 0,
+            # one more covered file without information whose NAME ends in white space (a blank, U+3000): every format has to spell it out
+            "blankname": draw(st.sampled_from([None, None, None, "notes ", "docs/\u8aac\u660e\u3000", "src/trailing tab\t"]))}
 
 
 def norm_paths(paths, cwd, root):
@@ -61,6 +63,9 @@ def norm_paths(paths, cwd, root):
 
 def check(ctx, c):
     state = c["state"]
+    if c.get("blankname") and state["gkind"] != "dep5" and not any(f["path"] == c["blankname"] for f in state["files"]):
+        state = dict(state, files=state["files"] + [{"path": c["blankname"], "kind": "text", "style": "python", "own": None, "dotlic": None, "table": None, "para": None,
+                                                     "unreadable": None, "block": False}], defects=state["defects"] + ["name-ends-in-white-space"])
     base = ctx.fresh_dir()
     root = base / "proj"
     root.mkdir()
